@@ -23,14 +23,16 @@ Readings taken where the statement leaves room (the reading under which the code
 import json
 import math
 import os
+import shutil
 import time
 import zlib
 from collections import Counter
 from concurrent.futures import ProcessPoolExecutor
 
 import numpy as np
+from scipy.stats import binom
 
-from ..env import assert_tree, seed
+from ..env import WORK, assert_tree, seed
 
 assert_tree()
 import qutip  # noqa: E402
@@ -295,16 +297,18 @@ def bitstr(b, n):
 
 
 def sample_ok(counts, probs, shots, n):
-    """Exact sanity + a 7-sigma band per bin (never reached by a correct sampler: p < 1e-11)."""
+    """Exact part: total, length, support.  Statistical part: the count of every bin lies inside the
+    exact binomial two-sided 1e-13 region (a correct sampler leaves it with probability < 2e-13 per bin)."""
     if sum(counts.values()) != shots or any(len(k) != n for k in counts):
         return False
-    for b, cnt in counts.items():
-        if probs.get(b, 0.0) <= 0.0:
-            return False
-    for b, p in probs.items():
-        if abs(counts.get(b, 0) - shots * p) > 7.0 * math.sqrt(shots * p * (1 - p)) + 1.0:
-            return False
-    return True
+    if any(probs.get(b, 0.0) <= 0.0 for b in counts):
+        return False
+    keys = list(probs)
+    k = np.array([counts.get(b, 0) for b in keys])
+    p = np.clip(np.array([probs[b] for b in keys], dtype=float), 0.0, 1.0)
+    lo = binom.cdf(k, shots, p)            # P(X <= k)
+    hi = binom.sf(k - 1, shots, p)         # P(X >= k)
+    return bool(np.all(np.minimum(lo, hi) >= 1e-13))
 
 
 def check_obs(rec, out, shots=400):
@@ -717,7 +721,7 @@ def check_times_backend(rec, out):
                         bpr = {format(b, "02b"): sum(np.real(rho[r, r]) for r in range(dq * dq)
                                                      if [int((r // dq) == es.index(one)), int((r % dq) == es.index(one))]
                                                      == [b >> 1, b & 1]) for b in range(4)}
-                        ok = all(bpr[k] > 1e-9 for k in v)
+                        ok = all(bpr[k] > 1e-9 for k in v)     # sample() drops p < 1/(1000 shots) = 2e-5
                     out.check(ok, sg, dd)
 
 
@@ -741,9 +745,20 @@ def _work(args):
                 check_obs(rec, out, shots=extra)
             else:
                 CHECKS[kind](rec, out)
-        except Exception as e:  # noqa: BLE001   an exception of the CHECK is a machinery failure
+        except (MemoryError, OSError):
             import traceback
             return ("ERR", traceback.format_exc() + json.dumps(rec)[:500], 0)
+        except Exception as e:  # noqa: BLE001
+            # Every call outside a try block succeeds on the unchanged tree for every point of the
+            # lattice (the reference says the operation is defined), so an exception here is the
+            # implementation refusing / crashing on a valid input: a violation, not a machinery failure.
+            import traceback
+            tb = traceback.extract_tb(e.__traceback__)
+            where = next((f"{os.path.basename(fr.filename)}:{fr.name}" for fr in reversed(tb)
+                          if "/pulser" in fr.filename), "harness")
+            out.check(False, {"clause": "unexpected_exception", "mode": kind, "exc": type(e).__name__,
+                              "where": where},
+                      {"err": str(e)[:300], "trace": traceback.format_exc()[-1500:], "rec": json.dumps(rec)[:600]})
     return ("OK", out.reports, out.tests)
 
 
@@ -801,14 +816,15 @@ def lattices(quick):
            dn(4, 1, all4 + " \\cup {2, 8}", all4, ords=three),
            dn(2, 2, all2, "{1,2,5}", ords=three), dn(3, 2, "{1,2,5,6}", "{5,6}", ords=three),
            dn(4, 2, "{1,5,7}", "{1,7}", ords=three),
-           dn(2, 3, "{1,2,5}", "{1,5}"), dn(2, 4, "{1,2,5}", "{5}"), dn(3, 3, "{1,5,6}", "{6}"),
-           dn(4, 3, "{5,7}"), dn(3, 4, "{5,6}"), dn(4, 4, "{5,7}")]
+           dn(2, 3, "{1,2,5}", "{5}"), dn(2, 4, "{1,2,5}"), dn(2, 4, "{5}", "{5}"),
+           dn(3, 3, "{1,5,6}"), dn(3, 3, "{6}", "{6}"), dn(4, 3, "{5,7}"), dn(3, 4, "{6}"),
+           dn(4, 4, "{7}", ords=one)]
     full = [dn(2, 1, ords=three), dn(2, 2, ords=three), dn(3, 1, ords=three), dn(4, 1, ords=three),
             dn(2, 3, ords=three), dn(3, 2, ords=three), dn(4, 2, ords=three), dn(2, 4, ords=three),
             dn(3, 3)]
     lean = [dn(4, 3, lean=True), dn(3, 4, lean=True), dn(4, 4, lean=True)]
     return {"rep": rep, "alg": full + lean, "act": full + lean, "obs": full + lean,
-            "maxlaw": 27, "maxrep": 256, "maxprod": 81}
+            "maxlaw": 27, "maxrep": 81, "maxprod": 81}
 
 
 def times_constants(quick):
@@ -855,11 +871,12 @@ def run(tier):
         V.known += json.load(open(FINDINGS))
     quick = tier != "thorough"
     L = lattices(quick)
+    pid = os.getpid()          # private TLC work directories: concurrent runs of this check do not collide
     runs, tests_total, samples = [], 0, []
     t_impl = 0.0
     for mode in ("rep", "alg", "act", "obs"):
         res, pts = enumerate_points(
-            "C20", f"obs-{mode}", "Observables",
+            "C20", f"obs-{mode}-{pid}", "Observables",
             {"Mode": f'"{mode}"', "DN": tla_set(L[mode]), "MaxLaw": str(L["maxlaw"]),
              "MaxRep": str(L["maxrep"]), "MaxProd": str(L["maxprod"])}, ["Emit", "Laws"])
         t0 = time.time()
@@ -876,7 +893,7 @@ def run(tier):
     store_times = [0, 4, 12] if quick else [0, 3, 6, 12]
     depth = 4 if quick else 5
     res, pts = enumerate_points(
-        "C20", "results-store", "ObsResults",
+        "C20", f"results-store-{pid}", "ObsResults",
         {"Mode": '"store"', "NObs": "2" if quick else "3", "Times": tla_set(map(str, store_times)),
          "Depth": str(depth), "Durations": "{}", "DefChoices": "{}", "OwnChoices": "{}", "BackendPts": "{}"},
         ["Emit", "Laws"])
@@ -889,7 +906,8 @@ def run(tier):
                  "depth": depth, "cmd": res.cmd})
     samples.append(pts[-1])
     # evaluation times (direct driver + backend runs)
-    res, pts = enumerate_points("C20", "results-times", "ObsResults", times_constants(quick), ["Emit", "Laws"])
+    res, pts = enumerate_points("C20", f"results-times-{pid}", "ObsResults", times_constants(quick),
+                                 ["Emit", "Laws"])
     t0 = time.time()
     n = run_points("times", pts, V, chunk=6)
     t_impl += time.time() - t0
@@ -899,6 +917,9 @@ def run(tier):
                  "tlc_s": round(res.wall, 1), "points": len(pts), "backend_runs": nb,
                  "direct_runs": len(pts) - nb, "implementation_assertions": n, "cmd": res.cmd})
     samples.append({k: pts[-1][k] for k in ("p", "den", "exp")})
+    for tag in [f"obs-{m}-{pid}" for m in ("rep", "alg", "act", "obs")] + [f"results-store-{pid}",
+                                                                            f"results-times-{pid}"]:
+        shutil.rmtree(os.path.join(WORK, "C20", tag), ignore_errors=True)
     cov = {
         "states": sum(r["tlc_distinct"] for r in runs),
         "transitions": sum(r["tlc_generated"] for r in runs),
@@ -921,7 +942,8 @@ def run(tier):
     return V.finish(cov, assumptions=[
         "float amplitudes = Gaussian integers / sqrt(norm); comparisons within 1e-9 relative (1e-6 at the backend "
         "level, above the solver's norm drift, far below any difference between lattice values)",
-        "sampling: exact support and total, 7-sigma band per bin with numpy seeded from VERIF_SEED",
+        "sampling: exact support and total; per bin the exact binomial two-sided 1e-13 region, numpy seeded "
+        "from VERIF_SEED",
         "evaluation times on a grid of 1/12 with sequence durations for which requested times are >= 1 ns apart; "
         "durations where T*1e-3 > T/1000 (C11 finding) are not in the lattice",
         "numerical accuracy of qutip's solvers and linear algebra is trusted",
